@@ -95,6 +95,19 @@ CHECKS['C14'] = dict(cat='other', engine='symnp',
          'object, every victim: survivors = non-dependants in the old order with unchanged values, every removal announced once.',
     ref='5/C14', note=NOTE_SYM + '; divisors assumed non-zero (sign of zero not modelled); numpy functions inside parsed commands outside the claim')
 
+CHECKS['C15'] = dict(cat='other', engine='symnp',
+    technique='symbolic execution of the coordinate code with a symbolic affine matrix (zero pattern forked by the solver) + SMT equivalence',
+    text='Forward direction: the linear block and translation of the affine matrix are solver variables; the real code forks on '
+         'matrix != 0, so every zero pattern is covered; world attributes for every view of a family (incl. negative scalars, '
+         'integer arrays), the automatically created pixel->world links, AffineCoordinates.pixel_to_world_values and an attribute '
+         'derived from a world attribute are proved equal to the affine map of the pixel grid, so the broadcasting shortcuts for '
+         'independent axes cannot change a value. Inverse direction: listed 1-3-d matrices and identity coordinates with symbolic '
+         'positions in three broadcast layouts: world_to_pixel undoes pixel_to_world within tolerance, the single-axis helpers and '
+         'both link functions agree with the coordinate object.', ref='5/C15',
+    note=NOTE_SYM + '; S-inv: np.linalg.inv of a symbolic matrix computed by cofactor expansion (invertibility assumed: det != 0 '
+         'up to 2-d, strict diagonal dominance in 3-d); astropy WCS outside the claim; asymmetric correlation patterns are a '
+         'recorded finding')
+
 NOT_YET = {}
 
 NOT_APPLICABLE = {
